@@ -116,6 +116,7 @@ def _case(c):
 
 def build(ctx):
     regs = [0, 1, 3, 10] if ctx.quick else [0, 1, 3, 10, "007"]
+    spelt = ["007", "01", 10]      # registers written with leading zeros (q007 is register 7): the light shapes use these in the quick tier
     shapes = SHAPES + (SHAPES_T if not ctx.quick else [])
     cases = []
     for si, (name, k, f) in enumerate(shapes):
@@ -125,6 +126,8 @@ def build(ctx):
         light = ctx.quick and name in LIGHT      # coefficient / repetition shapes: the register choice is not what they vary
         if light:
             perms = perms[:3]
+            if ctx.quick:
+                perms = perms[:2] + list(itertools.permutations(spelt, k))[:2]
         for rs in perms:
             for pos in ("pos", "kw") + (("both",) if (not ctx.quick or k <= 2) and not light else ()) + (("two-sets",) if (k <= 2 and not light and (not ctx.quick or rs == tuple(sorted(rs, key=str)))) else ()) + (("params",) if (not light and (not ctx.quick or rs == tuple(sorted(rs, key=str)))) else ()):
                 for context in ("plain", "after-measure", "after-select", "loop") if not light else ("plain", "loop"):
